@@ -13,6 +13,7 @@ A scenario is a plain dict (JSON-able, so that it can be replayed):
    "bus": [unit-token, ...]  or  "stream": ["255", "6", "n", "e", ...],
    ... kind-specific arguments ...}
 """
+from common import exc_name  # noqa: E402
 from common import Model, InfraError
 
 CAP_DEFAULT = 3000
@@ -241,7 +242,7 @@ class Session:
         except InfraError:
             raise
         except Exception as e:  # the sequence raised
-            outcome = "err " + type(e).__name__
+            outcome = "err " + exc_name(e)
         res["n"] = n
         if outcome is None:
             res["agree"] = False
@@ -294,7 +295,7 @@ class Session:
                 v = fmt(e.value)
                 outcome = "BAD-RETURN" if v is None else "ret " + v
             except Exception as e:  # noqa
-                outcome = "err " + type(e).__name__
+                outcome = "err " + exc_name(e)
             return objs, outcome
         objs, outcome = collect(factory)
         later = []
